@@ -12,6 +12,7 @@
  */
 #include <stdlib.h>
 #include <stdio.h>
+#include <sys/types.h>
 #include <string.h>
 #include <getopt.h>
 #include <jwt.h>
@@ -75,7 +76,11 @@ int getopt_long(int argc, char *const argv[], const char *optstr, const struct o
 	__CPROVER_assume(0);
 #endif
 	if (g_getopt_calls < 1000) g_getopt_calls++;
+#ifdef VERIF_STDIN_MODEL
+	if (g_getopt_calls > 1 || nondet_bool()) {	/* bounded unit: at most one option */
+#else
 	if (nondet_bool()) {
+#endif
 		int oi = nondet_int();
 		__CPROVER_assume(oi >= 1 && oi <= argc);
 		optind = oi;
@@ -89,8 +94,67 @@ int getopt_long(int argc, char *const argv[], const char *optstr, const struct o
 	return tbl[k].val;
 }
 
-/* ---- C library: no token byte is modelled ---- */
 int strcmp(const char *a, const char *b) { return nondet_int(); }
+#ifdef VERIF_STDIN_MODEL
+/* ---- BOUNDED content model of standard input (unit C20.bounded.jwt_verify.stdin): at most VERIF_STDIN_LINES
+ * lines of at most 6 characters (no NUL, no newline inside), each ended by a newline or -- the last one -- by
+ * end of input.  The checker stub below asserts that the token it is handed is exactly such a line without
+ * its terminator.  fgets and getline are both modelled, so the reading loop may use either. ---- */
+#ifndef VERIF_STDIN_LINES
+#define VERIF_STDIN_LINES 2
+#endif
+#ifndef VERIF_STDIN_MAXLEN
+#define VERIF_STDIN_MAXLEN 3	/* at most 6 */
+#endif
+unsigned g_lines; const char *g_line_buf; unsigned g_line_len; char g_line_copy[8];
+static int fill_line(char *s)
+{
+	unsigned L = nondet_uint();
+	__CPROVER_assume(L <= VERIF_STDIN_MAXLEN);
+	for (unsigned i = 0; i < 6; i++)
+		if (i < L) { char c = nondet_char(); __CPROVER_assume(c != 0 && c != '\n'); s[i] = c; g_line_copy[i] = c; }
+	_Bool nl = nondet_bool();
+	if (nl) { s[L] = '\n'; s[L + 1] = 0; } else s[L] = 0;
+	__CPROVER_assume(nl || L > 0);		/* an empty last line is end of input */
+	g_line_buf = s; g_line_len = L;
+	return (int)L + (nl ? 1 : 0);
+}
+size_t strlen(const char *s)
+{
+	if (g_line_buf != NULL && __CPROVER_same_object(s, g_line_buf) && s == g_line_buf)
+		for (unsigned i = 0; i < 8; i++)
+			if (s[i] == 0) return i;
+	return nondet_size_t();		/* argument strings: no byte is modelled */
+}
+size_t strcspn(const char *s, const char *rej)
+{
+	__CPROVER_assert(rej[0] == '\n' && rej[1] == 0, "strcspn: the reject set is a newline (the only use in the tools)");
+	for (unsigned i = 0; i < 8; i++)
+		if (s[i] == 0 || s[i] == '\n') return i;
+	return nondet_size_t();
+}
+char *fgets(char *s, int size, FILE *fp)
+{
+	__CPROVER_assert(size >= 8 && __CPROVER_w_ok(s, (size_t)size), "fgets: buffer writable");
+	if (g_lines >= VERIF_STDIN_LINES || nondet_bool())
+		return NULL;
+	g_lines++;
+	fill_line(s);
+	return s;
+}
+ssize_t getline(char **lineptr, size_t *n, FILE *fp)
+{
+	__CPROVER_assert(lineptr != NULL && n != NULL, "getline: result pointers given");
+	if (g_lines >= VERIF_STDIN_LINES || nondet_bool())
+		return -1;
+	g_lines++;
+	char *b = malloc(8);
+	__CPROVER_assume(b != NULL);
+	*lineptr = b; *n = 8;
+	return fill_line(b);
+}
+#else
+/* ---- C library: no token byte is modelled ---- */
 size_t strlen(const char *s) { return nondet_size_t(); }
 size_t strcspn(const char *s, const char *rej)
 {
@@ -106,6 +170,7 @@ char *fgets(char *s, int size, FILE *fp)
 	s[size - 1] = 0;
 	return s;
 }
+#endif
 int verif_printf(void) { return 0; }
 
 /* ---- libjwt as the tools see it ---- */
@@ -122,6 +187,17 @@ int jwt_checker_verify(jwt_checker_t *c, const char *token)
 	__CPROVER_assume(g_tok_calls < 0xffffffffffffffffULL);	/* ASSUMED: fewer than 2^64 tokens in one run */
 	g_tok_calls++;
 	g_tok_last = token;
+#ifdef VERIF_STDIN_MODEL
+	/* C20: a token that comes from standard input is the line as it was written, without its line
+	 * terminator -- nothing added, nothing chopped */
+	if (g_line_buf != NULL && __CPROVER_same_object(token, g_line_buf)) {
+		__CPROVER_assert(token == g_line_buf, "C20: the token handed to the checker starts at the start of the stdin line");
+		_Bool same = 1;
+		for (unsigned i = 0; i < 6; i++)
+			if (i < g_line_len && token[i] != g_line_copy[i]) same = 0;
+		__CPROVER_assert(same && token[g_line_len] == 0, "C20: the token handed to the checker is the stdin line without its terminator, complete");
+	}
+#endif
 	if (nondet_bool()) {
 		int r = nondet_int();
 		__CPROVER_assume(r != 0);
